@@ -156,7 +156,7 @@ def c12_apply(op, spec, cfg, rnd):
                 break
         return s, cfg, list(ctx), "nonliteral:" + label
     if op == "beyond_i64":
-        if r not in ("u64", "u128", "i128"):
+        if r not in ("u64", "u128", "i128", "usize"):
             return None
         if r == "i128" and rnd.random() < 0.6:
             val = rnd.choice([-2 ** 63 - 1, -2 ** 63 - 2, -(2 ** 64 - 1), -(2 ** 64 - 2), -(2 ** 63 + rnd.randrange(3, 2 ** 62)),
@@ -168,6 +168,8 @@ def c12_apply(op, spec, cfg, rnd):
         if val in m.values:
             return None
         style = rnd.choice(["dec", "hex", "suffix"])
+        if r == "usize" and val > 2 ** 64 - 1:
+            val = 2 ** 64 - 1 - rnd.randrange(0, 1000)
         mag = abs(val)
         text = {"dec": str(mag), "hex": "0x%x" % mag, "suffix": "%d%s" % (mag, r)}[style]
         if val < 0:
@@ -180,7 +182,7 @@ def c12_apply(op, spec, cfg, rnd):
             s["variants"][j]["disc"] = text
         return s, cfg, ctx, "beyond_i64:%s" % ("neg" if val < 0 else "pos")
     if op == "implicit_after_i64max":
-        if r not in ("u64", "u128", "i128"):
+        if r not in ("u64", "u128", "i128", "usize"):
             return None
         if 2 ** 63 - 1 in m.values or 2 ** 63 in m.values:
             return None
@@ -292,7 +294,8 @@ def c13_apply(op, spec, cfg, rnd):
                              "visibility"] if p not in legal]
         pname = rnd.choice(cands)
         form = rnd.choice(["bare", "value"])
-        ptxt = pname if form == "bare" else "%s = \"x\"" % pname
+        good = {"vis": "pub", "mode": "table", "name": "x_y", "struct_name": "XStruct"}.get(pname, "x")
+        ptxt = pname if form == "bare" else "%s = \"%s\"" % (pname, rnd.choice([good, good, "x"]))
         if fname == "sorted":
             form = "bare" if pname not in ("mode",) else form
         if fname in present:
